@@ -203,6 +203,7 @@ class Rec:
         self.raised = False
         self.awaited = set()   # indices of emissions whose result was awaited / yielded
         self.jump = None       # 'break' / 'continue' until the enclosing loop consumes it
+        self.awaited_calls = set()   # indices into calls of opaque calls whose value was awaited / yielded (name_calls mode)
         self.stale = set()     # texts of tests that may not be re-used (a value they mention was mutated since)
 
     def copy(self):
@@ -210,6 +211,7 @@ class Rec:
         r.awaited = set(self.awaited)
         r.jump = self.jump
         r.stale = set(self.stale)
+        r.awaited_calls = set(self.awaited_calls)
         r.env = dict(self.env)
         r.conds = list(self.conds)
         r.stores = list(self.stores)
@@ -380,6 +382,8 @@ class SymEval:
                     for x in ast.walk(v):
                         if isinstance(x, ast.Call) and isinstance(x.func, ast.Name) and x.func.id == 'EMITRESULT':
                             q.awaited.add(x.args[0].value)
+                    if isinstance(v, ast.Name) and v.id[:1] == 'C' and v.id[1:].isdigit():
+                        q.awaited_calls.add(int(v.id[1:]))
                 yield q, v
             return
         if isinstance(node, ast.Call):
